@@ -15,7 +15,7 @@ def grind(r, make, want_later_than):
 def explore(ck):
     r = ck.rng; quick = ck.tier == 'quick'
     ck.rule = ('indexes = active chain + header-only records (status validity TREE, no data; at, below and beyond the tip; arbitrary header bytes incl. 0xff.. versions), failed blocks, '
-               'stale siblings with and without data at occupied heights in both hash orders (nonce grinding), pruned-looking records; indexes of 50-110 records with 8-15 competitors; exhaustive sweep of all 256 status bytes through the record '
+               'stale siblings with and without data at occupied heights in both hash orders (nonce grinding), pruned-looking records; indexes of 50-110 records with 8-15 competitors; --start / --end ranges; data positions around 32768; exhaustive sweep of all 256 status bytes through the record '
                'decoder/filter hook. Expected: delivered = active chain, prev-links hold, no competitor transaction in any output. Cases where an admitted competitor sorts after the active block at '
                'its height are the known-finding class F-C04 (implementation must then behave like the model). Non-trivial: >= 1 record besides the active chain; distinct by competitor description.')
     cases = []
@@ -24,8 +24,14 @@ def explore(ck):
         coin = gen.ALL_COINS[i % 8]
         long = (i % 15 == 7)      # indexes of 50-110 records with 8-15 competitors: a loader that sorts or partitions the records behaves differently from 12 records on
         blocks = gen.random_chain(r, coin, r.randrange(3, 8) if not long else r.randrange(45, 100), max_tx=(2 if not long else 1), script_kinds=['p2pkh', 'p2sh', 'opret_small'])
-        c = Case('k%d' % i, coin).simple_layout(blocks); T = len(blocks) - 1; comp = []; inclass = False
-        twin = Case('k%dspec' % i, coin).simple_layout(blocks)          # the same active chain without any competitor: its output is the property's expectation
+        c = Case('k%d' % i, coin); T = len(blocks) - 1; comp = []; inclass = False
+        twin = Case('k%dspec' % i, coin)          # the same active chain without any competitor: its output is the property's expectation
+        lead = bytes(r.randrange(32740, 32790)) if i % 5 == 3 else b''      # some chains start deep in the file: data positions around 32768 (VarInt bytes 80 ff xx, 81 80 xx)
+        for cc in (c, twin):
+            for h, b in enumerate(blocks):
+                off = cc.put_block(0, b.raw, pad=(lead if h == 0 else b'')); cc.add_record(b, h, 0, off)
+        if i % 4 == 1: c.end = twin.end = r.choice([T - 1, T, T + 3]) if T >= 2 else None      # ranges: trimming / an early end of the index scan must not change which record wins a height
+        if i % 4 == 2 and T >= 2: c.start = twin.start = 1
         for j in range(r.randrange(1, 5) if not long else r.randrange(8, 16)):
             kind = 'stale_data_after' if (i == 0 and j == 0) else r.choice(['stale_data_before', 'failed_data_before', 'stale_data_before', 'header_only']) if long else r.choice(['header_only', 'header_only', 'header_beyond', 'failed_nodata', 'stale_data_before', 'stale_nodata', 'stale_data_after', 'failed_data_before', 'ff_header'])
             h = r.randrange(0, T + 1)
@@ -74,7 +80,7 @@ def explore(ck):
         m = models[c.id]
         rows = m['csv'][0]; hashes = [l.split(';')[0] for l in rows]
         act = [rec for rec in c.records[:len(rows)]]
-        active_hashes = [k[1:][::-1].hex() for k, v in c.records[:len(hashes)]]
+        active_hashes = [k[1:][::-1].hex() for k, v in c.records[c.start:c.start + len(hashes)]]      # the first T+1 records are the active chain in height order
         if c.meta['kf']:
             if hashes != active_hashes:
                 if kf: ck.known_finding('F-C04', kf['text'])
